@@ -278,7 +278,7 @@ func checkWait(c waitCase, w time.Duration, now time.Time, observedGap bool) wai
 			v.OK, v.Outcome = true, "hint:seconds-saturated"
 			return v
 		}
-		if bOK && !neg {
+		if bOK { // includes the linear policy's exemption (bounds not representable: nothing is demanded)
 			r := base()
 			r.HintClass = h.Class
 			if r.OK {
@@ -314,14 +314,14 @@ func retryAfterValues(thorough bool) []string {
 	v := []string{
 		"", "-1", "0", "1", "120", "9223372036", "9223372037", "9223372036854775807", "9223372036854775808",
 		"18446744074", "-9223372036854775808",
-		"Fri, 31 Dec 1999 23:59:59 GMT",   // IMF-fixdate, past
-		"Sat, 01 Jan 2000 00:01:30 GMT",   // IMF-fixdate, +90 s
-		"Fri, 31 Dec 9999 23:59:59 GMT",   // far future: date-now saturates
+		"Fri, 31 Dec 1999 23:59:59 GMT",    // IMF-fixdate, past
+		"Sat, 01 Jan 2000 00:01:30 GMT",    // IMF-fixdate, +90 s
+		"Fri, 31 Dec 9999 23:59:59 GMT",    // far future: date-now saturates
 		"Saturday, 01-Jan-00 00:02:00 GMT", // RFC 850
-		"Sat Jan  1 00:03:00 2000",        // asctime
-		"Sat, 01 Jan 2000 01:01:30 +0100", // RFC1123Z (extension), +90 s
-		"1999-10-12T07:20:50.52Z",         // RFC3339 (extension), past
-		"2000-01-01T00:10:00Z",            // RFC3339 (extension), +600 s
+		"Sat Jan  1 00:03:00 2000",         // asctime
+		"Sat, 01 Jan 2000 01:01:30 +0100",  // RFC1123Z (extension), +90 s
+		"1999-10-12T07:20:50.52Z",          // RFC3339 (extension), past
+		"2000-01-01T00:10:00Z",             // RFC3339 (extension), +600 s
 		"15s", "soon", " 1", "1.5",
 	}
 	if thorough {
@@ -369,6 +369,14 @@ type violRec struct {
 	Sig    string `json:"signature"`
 	Replay any    `json:"replay"`
 	Count  int64  `json:"count"`
+	Key    string `json:"key"` // the stored case is the one with the smallest key (deterministic, simplest first)
+}
+
+func (r *violRec) absorb(v *violRec) {
+	r.Count += v.Count
+	if v.Key < r.Key {
+		r.Replay, r.Key = v.Replay, v.Key
+	}
 }
 
 type bSample struct {
@@ -496,7 +504,7 @@ func runPartB(t *testing.T, rep *ev.Reporter, thorough bool) partBResult {
 									sig := sigB(c, v)
 									r := loc.Viol[sig]
 									if r == nil {
-										r = &violRec{Sig: sig, Replay: map[string]any{"part": "B", "case": c, "got_ns": int64(w), "got": w.String(), "want": v.Want, "clause": v.Clause}}
+										r = &violRec{Sig: sig, Key: fmt.Sprintf("%s|%020d|%020d|%012d|%v", c.Kind, int64(c.Min), int64(c.Max), c.N, c), Replay: map[string]any{"part": "B", "case": c, "got_ns": int64(w), "got": w.String(), "want": v.Want, "clause": v.Clause}}
 										loc.Viol[sig] = r
 									}
 									r.Count++
@@ -509,7 +517,7 @@ func runPartB(t *testing.T, rep *ev.Reporter, thorough bool) partBResult {
 											sig := fmt.Sprintf("apply:exponential-decreasing:retry-after=%s:policy=%s", v.HintClass, c.Kind)
 											r := loc.Viol[sig]
 											if r == nil {
-												r = &violRec{Sig: sig, Replay: map[string]any{"part": "B", "case": c, "got_ns": int64(w), "got": w.String(), "previous_ns": int64(*prev), "clause": "exponential-decreasing"}}
+												r = &violRec{Sig: sig, Key: fmt.Sprintf("%s|%020d|%020d|%012d|%v", c.Kind, int64(c.Min), int64(c.Max), c.N, c), Replay: map[string]any{"part": "B", "case": c, "got_ns": int64(w), "got": w.String(), "previous_ns": int64(*prev), "clause": "exponential-decreasing"}}
 												loc.Viol[sig] = r
 											}
 											r.Count++
@@ -562,10 +570,7 @@ func runPartB(t *testing.T, rep *ev.Reporter, thorough bool) partBResult {
 					if r := res.Viol[k]; r == nil {
 						res.Viol[k] = v
 					} else {
-						r.Count += v.Count
-						if fmt.Sprint(v.Replay) < fmt.Sprint(r.Replay) { // deterministic choice of the stored case
-							r.Replay = v.Replay
-						}
+						r.absorb(v)
 					}
 				}
 				for k, v := range loc.byOutcome {
